@@ -202,10 +202,6 @@ def _transport_plan(data, mjdata):
     return plan, set(top)
 
 
-def _lerax_to_np(data, plan, top):
-    return {n: np.asarray(_get_lerax_field(data, n, top), dtype=np.float64).reshape(-1) for n in plan}
-
-
 def _load_into(mjdata, fields, scale=1.0):
     for n, src in fields.items():
         dst = getattr(mjdata, n)
@@ -214,21 +210,6 @@ def _load_into(mjdata, fields, scale=1.0):
 
 def _snapshot(mjdata, plan):
     return {n: np.array(getattr(mjdata, n), dtype=np.float64).reshape(-1) for n in plan}
-
-
-def _graft(state, fields, top):
-    """lerax state whose mjx.Data carries the given (C engine) arrays; everything else unchanged."""
-    import equinox as eqx
-    import jax.numpy as jnp
-
-    names = list(fields)
-
-    def where(s):
-        return [getattr(s.sim_state, n) if n in top else getattr(s.sim_state._impl, n) for n in names]
-
-    cur = where(state)
-    new = [jnp.asarray(fields[n].reshape(c.shape), dtype=c.dtype) for n, c in zip(names, cur)]
-    return eqx.tree_at(where, state, new)
 
 
 # --------------------------------------------------------------------------------------------- compare
@@ -250,11 +231,6 @@ def _cmp(got, want, atol, rtol, extra=0.0):
     idx = np.flatnonzero(bad)
     return False, {"n_bad": int(idx.size), "entries": idx[:24].tolist(), "got": got[idx[:12]].tolist(),
                    "want": want[idx[:12]].tolist(), "max_abs_err": float(np.nanmax(err[idx])) if idx.size else 0.0}
-
-
-def _scalar(x):
-    a = np.asarray(x)
-    return a.astype(np.float64)
 
 
 class _Harness:
@@ -625,13 +601,12 @@ def _run_config(h, nkeys, nsteps, nlift):
         lifted = ki >= nkeys
         kidx = 100 + ki + 1000 * (_lh(h.label) % 97)
         try:
-            s, lobs0 = fns["init"](env, ctx.key(kidx))
+            s, lobs0, vec0 = fns["init"](env, ctx.key(kidx))
         except Exception as e:  # documented option raising is a finding, not a crash
             h.viol("mj-constructor-option-raises", {"where": "initial/observation", "error": repr(e)[:400]})
             return
-        if h.plan is None:
-            h.plan, h.top = _transport_plan(s.sim_state, h.gd.data)
-            ctx.notes.setdefault("transported_fields", len(h.plan))
+        h.plan, h.top = fns["plan"], fns["top"]
+        sizes = fns["sizes"]
         qpos0 = np.asarray(s.sim_state.qpos, np.float64)
         qvel0 = np.asarray(s.sim_state.qvel, np.float64)
 
@@ -640,7 +615,7 @@ def _run_config(h, nkeys, nsteps, nlift):
             h.g_reset_to(h.gd, qpos0, qvel0)
             gobs_true = np.array(h.gd._get_obs(), np.float64)
             true_fields = _snapshot(h.gd.data, h.plan)
-            l0 = _lerax_to_np(s.sim_state, h.plan, h.top)
+            l0 = _unpack(vec0, h.plan, sizes)
             # (F) Gymnasium's formula on lerax's initial data
             import mujoco
 
@@ -648,7 +623,7 @@ def _run_config(h, nkeys, nsteps, nlift):
             _load_into(h.gf.data, l0)
             gobs_on_l = np.array(h.gf._get_obs(), np.float64)
             # (Fr) lerax's formula on the C engine's reset data
-            lobs_on_c = np.asarray(fns["obs"](env, _graft(s, true_fields, h.top)), np.float64)
+            lobs_on_c = np.asarray(fns["obs"](env, s, jnp.asarray(_pack_np(true_fields, h.plan))), np.float64)
             desc = {"env": name, "config": h.label, "key": kidx, "monitor": "reset"}
             ctx.case(desc, nontrivial=True, cls=f"reset/{h.label}")
             ctx.monitor("reset_observations_compared")
@@ -680,33 +655,35 @@ def _run_config(h, nkeys, nsteps, nlift):
             z = _ROOT_Z[name]
             qpos_l = qpos0.copy()
             qpos_l[z] += 1.0
-            s = _graft(s, {"qpos": qpos_l}, h.top)
+            s = fns["set_qpos"](s, jnp.asarray(qpos_l, jnp.float32))
 
         # ---------------- rollout
         for t in range(nsteps):
             a, akind = _action(h, rng, t + 3 * ki)
             try:
-                ns, lobs, lrew, lterm, linfo = fns["step"](env, s, jnp.asarray(a), jkey)
+                ns, lobs, lrew, lterm, linfo, vec_b, vec_a, ldist0, ldist = fns["step"](env, s, jnp.asarray(a), jkey)
             except Exception as e:
                 h.viol("mj-constructor-option-raises", {"where": "transition/reward/...", "error": repr(e)[:400]})
                 return
             lobs = np.asarray(lobs, np.float64)
             lrew, lterm = float(lrew), bool(lterm)
             linfo = {k: np.asarray(v, np.float64) for k, v in linfo.items()}
-            qpos = np.asarray(s.sim_state.qpos, np.float64)
-            qvel = np.asarray(s.sim_state.qvel, np.float64)
+            qpos = np.asarray(vec_b, np.float64)[_offset(h.plan, sizes, "qpos")]
+            qvel = np.asarray(vec_b, np.float64)[_offset(h.plan, sizes, "qvel")]
             wit = {"key_index": kidx, "step": t, "lifted": lifted, "qpos": qpos, "qvel": qvel, "action": a}
             if not (np.all(np.isfinite(lobs)) and np.all(np.isfinite(qpos))):
                 ctx.monitor("rollout_stopped_nonfinite")
                 break
-            before = _lerax_to_np(s.sim_state, h.plan, h.top)
-            after = _lerax_to_np(ns.sim_state, h.plan, h.top)
+            before = _unpack(vec_b, h.plan, sizes)
+            after = _unpack(vec_a, h.plan, sizes)
             first = (t == 0) and not lifted
             cls_step = "first" if first else ("lifted" if lifted else "later")
 
+            # Gymnasium's formulas on lerax's data (judged as M2 below; M3 reuses the observation so that a
+            # formula difference cannot show up as a data difference)
+            want = _gym_formula_step(h, before, after, a)
             if not lifted:
-                # ------------ M2: Gymnasium's formulas on lerax's data
-                want = _gym_formula_step(h, before, after, a)
+                # ------------ M2
                 got = (lobs, lrew, lterm, linfo)
                 amb = False
                 if want[2] != lterm or abs(want[1] - lrew) > 1e-4 + 1e-5 * abs(want[1]):
@@ -751,17 +728,14 @@ def _run_config(h, nkeys, nsteps, nlift):
             gobs, grew, gterm = np.array(gobs, np.float64), float(grew), bool(gterm)
             ginfo = {k: np.array(v, np.float64) for k, v in ginfo.items()}
             c_after = _snapshot(h.gd.data, h.plan)
-            ldist = float(np.min(np.asarray(ns.sim_state._impl.contact.dist))) if np.size(
-                ns.sim_state._impl.contact.dist) else np.inf
-            ldist0 = float(np.min(np.asarray(s.sim_state._impl.contact.dist))) if (
-                np.size(s.sim_state._impl.contact.dist) and not first and not (lifted and t == 0)) else np.inf
+            ldist = float(ldist)
+            ldist0 = float(ldist0) if (not first and not (lifted and t == 0)) else np.inf
             contact_free = max(ncon) == 0 and min(ldist, ldist0) > _CLEARANCE
 
             if not lifted:
                 # M2r: lerax's formulas on the C engine's data
-                sc = _graft(s, c_before, h.top)
-                nsc = _graft(ns, c_after, h.top)
-                robs, rrew, rterm, rinfo = fns["judge"](env, sc, jnp.asarray(a), nsc, jkey)
+                cvb, cva = jnp.asarray(_pack_np(c_before, h.plan)), _pack_np(c_after, h.plan)
+                robs, rrew, rterm, rinfo = fns["judge"](env, s, jnp.asarray(a), ns, cvb, jnp.asarray(cva), jkey)
                 rgot = (np.asarray(robs, np.float64), float(rrew), bool(rterm),
                         {k: np.asarray(v, np.float64) for k, v in rinfo.items()})
                 vel_extra = 4 * _EPS32 * (1 + float(np.max(np.abs(c_after["qpos"])))) / h.dt * W
@@ -770,8 +744,8 @@ def _run_config(h, nkeys, nsteps, nlift):
                     # threshold tie after the float32 cast of the C engine's data?
                     zs = []
                     for scl in (1 - 4e-6, 1 + 4e-6):
-                        nsc2 = _graft(ns, {k: v * scl for k, v in c_after.items()}, h.top)
-                        zs.append(bool(fns["judge"](env, sc, jnp.asarray(a), nsc2, jkey)[2]))
+                        zs.append(bool(fns["judge"](env, s, jnp.asarray(a), ns, cvb,
+                                                    jnp.asarray((cva * scl).astype(np.float32)), jkey)[2]))
                     amb = gterm in zs
                     if amb:
                         ctx.monitor("termination_boundary_ambiguous")
@@ -791,8 +765,8 @@ def _run_config(h, nkeys, nsteps, nlift):
                 ctx.monitor("data_fidelity_contact_free_steps")
                 if max(nefc) > 0:
                     ctx.monitor("data_fidelity_contact_free_steps_with_limit_constraints")
-                ok, d = _cmp(lobs, gobs, 1e-3, 1e-3)
-                track("data_obs_contact_free", lobs, gobs)
+                ok, d = _cmp(want[0], gobs, 1e-3, 1e-3)
+                track("data_obs_contact_free", want[0], gobs)
                 ok2, d2 = _cmp(after["qpos"], c_after["qpos"], 1e-3, 1e-3)
                 ok3, d3 = _cmp(after["qvel"], c_after["qvel"], 1e-3, 1e-3)
                 track("data_qpos_contact_free", after["qpos"], c_after["qpos"])
@@ -801,7 +775,8 @@ def _run_config(h, nkeys, nsteps, nlift):
                     h.viol("mj-transition-data", {"monitor": "data/contact-free", "output": "qpos/qvel after one step",
                                                   **(d2 or d3), "nefc_trace": nefc, **wit})
                 elif not ok:
-                    # observation differs although the state agrees: a derived array differs
+                    # Gymnasium's observation formula on lerax's data vs on the C engine's data differs
+                    # although qpos/qvel agree: a derived array (xpos, cvel, cinert, qfrc_*, ...) differs
                     h.viol("mj-transition-derived-data", {"monitor": "data/contact-free", "output": "observation",
                                                           **d, "nefc_trace": nefc, **wit})
             else:
@@ -837,14 +812,32 @@ def _run_config(h, nkeys, nsteps, nlift):
                     "lerax_nonzero_steps": 0, **(contact_stats.get("witness") or {})})
 
 
-def _make_fns():
+def _make_fns(plan, top):
+    """One compiled program per (function, boolean-option signature).  The arrays that travel between lerax's
+    mjx.Data and Gymnasium's MjData are packed into one flat vector inside the compiled function."""
     import equinox as eqx
     import jax
+    import jax.numpy as jnp
+
+    def pack(data):
+        return jnp.concatenate([jnp.ravel(_get_lerax_field(data, n, top)).astype(jnp.float32) for n in plan])
+
+    def mindist(data):
+        d = data._impl.contact.dist
+        return jnp.min(d) if d.size else jnp.array(jnp.inf)
+
+    def graft(state, vec):
+        leaves, off = [], 0
+        where = lambda s: [getattr(s.sim_state, n) if n in top else getattr(s.sim_state._impl, n) for n in plan]  # noqa: E731
+        for c in where(state):
+            leaves.append(vec[off:off + c.size].reshape(c.shape).astype(c.dtype))
+            off += c.size
+        return eqx.tree_at(where, state, leaves)
 
     @eqx.filter_jit
     def init(env, key):
         s = env.initial(key=key)
-        return s, env.observation(s, key=key)
+        return s, env.observation(s, key=key), pack(s.sim_state)
 
     @eqx.filter_jit
     def vinit(env, keys):
@@ -857,18 +850,46 @@ def _make_fns():
     def step(env, s, a, key):
         ns = env.transition(s, a, key=key)
         return (ns, env.observation(ns, key=key), env.reward(s, a, ns, key=key), env.terminal(ns, key=key),
-                env.transition_info(s, a, ns))
+                env.transition_info(s, a, ns), pack(s.sim_state), pack(ns.sim_state),
+                mindist(s.sim_state), mindist(ns.sim_state))
 
     @eqx.filter_jit
-    def judge(env, s, a, ns, key):
+    def judge(env, s, a, ns, vec_before, vec_after, key):
+        s, ns = graft(s, vec_before), graft(ns, vec_after)
         return (env.observation(ns, key=key), env.reward(s, a, ns, key=key), env.terminal(ns, key=key),
                 env.transition_info(s, a, ns))
 
     @eqx.filter_jit
-    def obs(env, s):
-        return env.observation(s, key=jax.random.key(0))
+    def obs(env, s, vec):
+        return env.observation(graft(s, vec), key=jax.random.key(0))
 
-    return {"init": init, "vinit": vinit, "step": step, "judge": judge, "obs": obs}
+    @eqx.filter_jit
+    def set_qpos(s, qpos):
+        return eqx.tree_at(lambda x: x.sim_state.qpos, s, qpos.astype(s.sim_state.qpos.dtype))
+
+    return {"init": init, "vinit": vinit, "step": step, "judge": judge, "obs": obs, "set_qpos": set_qpos}
+
+
+def _offset(plan, sizes, name):
+    off = 0
+    for n in plan:
+        if n == name:
+            return slice(off, off + sizes[n])
+        off += sizes[n]
+    raise KeyError(name)
+
+
+def _unpack(vec, plan, sizes):
+    vec = np.asarray(vec, np.float64)
+    out, off = {}, 0
+    for n in plan:
+        out[n] = vec[off:off + sizes[n]]
+        off += sizes[n]
+    return out
+
+
+def _pack_np(fields, plan):
+    return np.concatenate([np.asarray(fields[n], np.float64).reshape(-1) for n in plan]).astype(np.float32)
 
 
 def run_mujoco_unit(name, ctx):
@@ -882,8 +903,17 @@ def run_mujoco_unit(name, ctx):
         raise ValueError(f"unknown MuJoCo unit {name}")
     import gymnasium as gym
 
-    fns = _make_fns()
+    import lerax.env.mujoco as lm
+    from mujoco import mjx
+
     g0 = gym.make(ENVS[env_name]).unwrapped
+    e0 = getattr(lm, env_name)()
+    tmpl = mjx.make_data(e0.model)
+    plan, top = _transport_plan(tmpl, g0.data)
+    sizes = {n: int(np.size(getattr(g0.data, n))) for n in plan}
+    fns = _make_fns(tuple(plan), frozenset(top))
+    fns["plan"], fns["top"], fns["sizes"] = plan, top, sizes
+    ctx.notes["transported_fields"] = len(plan)
     init_qpos = np.array(g0.init_qpos, np.float64)
     heavy = env_name in ("Humanoid", "HumanoidStandup", "Ant")
     nkeys = ctx.n(5, 12 if heavy else 24)
